@@ -30,7 +30,8 @@ pub fn margin_primal(c: &ConeSpec, v: &[f64]) -> f64 {
             if y > 0.0 {
                 f64::min(z - y * (x / y).exp(), y)
             } else if y == 0.0 {
-                f64::min(-x, z)
+                // the face {(x,0,z): x<=0, z>=0} belongs to the closure but is never interior
+                f64::min(f64::min(-x, z), 0.0)
             } else {
                 y
             }
@@ -67,7 +68,8 @@ pub fn margin_dual(c: &ConeSpec, v: &[f64]) -> f64 {
                 // -u e^{v/u} <= e w
                 f64::min(std::f64::consts::E * w + u * (vv / u).exp(), -u)
             } else if u == 0.0 {
-                f64::min(vv, w)
+                // the face {(0,v,w): v,w>=0} belongs to the closure but is never interior
+                f64::min(f64::min(vv, w), 0.0)
             } else {
                 -u
             }
